@@ -5,6 +5,7 @@ from harness.common import guarded
 from harness.impl_loc import Toks, parse_loc, show_loc, SYM
 
 from inscripta.biocantor.parent import Parent
+from inscripta.biocantor.location.location_impl import EmptyLocation
 from inscripta.biocantor.sequence.sequence import Sequence
 from inscripta.biocantor.sequence.alphabet import Alphabet
 from inscripta.biocantor.gene.interval import AbstractInterval
@@ -90,6 +91,84 @@ def impl_lift_op(line):
             sub.i = cpos
             loc = parse_loc(sub, parent=c1)
             return "ok " + show_loc(AbstractInterval.liftover_location_to_seq_chunk_parent(loc, c2))
+        if op == "relocate":
+            return relocate(toks, tk)
         raise KeyError(op)
 
     return guarded(go)
+
+
+# ---------------------------------------------------------------------------------------------------------------
+# relocate: the whole of liftover_location_to_seq_chunk_parent on hierarchies that carry REAL sequence
+#   relocate <GENOME> <a1> <b1> <s1> <TXLOC | N> <CHILD> <a2 b2 s2 | W>
+# ---------------------------------------------------------------------------------------------------------------
+_COMP = {"A": "T", "C": "G", "G": "C", "T": "A"}
+
+
+def _revcomp(s):
+    return "".join(_COMP[c] for c in reversed(s))
+
+
+def _walk(blocks, strand):
+    """5'->3' positions of a location given as sorted (start, end) blocks"""
+    if strand is SYM["-"]:
+        return [p for s, e in reversed(blocks) for p in range(e - 1, s - 1, -1)]
+    return [p for s, e in blocks for p in range(s, e)]
+
+
+def _chunk(genome, a, b, strand):
+    plus = genome[a:b]
+    return seq_chunk_to_parent(plus if strand is SYM["+"] else _revcomp(plus), "chr", a, b, strand, Alphabet.NT_STRICT)
+
+
+def relocate(toks, tk):
+    from inscripta.biocantor.parent.parent import SequenceType
+    genome = tk.next()
+    a1, b1, s1 = tk.int(), tk.int(), tk.strand()
+    txpos = None
+    if tk.t[tk.i] == "N":
+        tk.next()
+    else:
+        txpos = tk.i
+        _skip_loc(tk)
+    cpos = tk.i
+    _skip_loc(tk)
+    if tk.t[tk.i] == "W":
+        tk.next()
+        window2 = None
+    else:
+        window2 = (tk.int(), tk.int(), tk.strand())
+    # call history: a caller who processed ANOTHER strain first (same chromosome name, same windows, every base
+    # different).  Those objects are discarded; on a correct library they cannot influence what follows.
+    decoy = "".join(_COMP[c] for c in genome)
+    _chunk(decoy, a1, b1, s1)
+    if window2 is not None:
+        _chunk(decoy, *window2)
+    else:
+        Parent(id="chr", sequence=Sequence(decoy, Alphabet.NT_STRICT, id="chr", type=SequenceType.CHROMOSOME))
+    # the real hierarchy
+    chunk_a = _chunk(genome, a1, b1, s1)
+    if txpos is not None:
+        sub = Toks(toks)
+        sub.i = txpos
+        txloc = parse_loc(sub)
+        on_chunk = chunk_a.reset_location(txloc)          # Parent.__init__ refuses a placement beyond the chunk
+        chunk_seq = str(chunk_a.sequence)
+        walked = _walk([(b.start, b.end) for b in txloc.blocks], txloc.strand)
+        minus = txloc.strand is SYM["-"]
+        tx_bases = "".join(_COMP[chunk_seq[p]] if minus else chunk_seq[p] for p in walked)
+        tx_seq = Sequence(tx_bases, Alphabet.NT_STRICT, id="tx", type="transcript", parent=on_chunk)
+        parent = Parent(sequence=tx_seq)
+    else:
+        parent = chunk_a
+    sub = Toks(toks)
+    sub.i = cpos
+    child = parse_loc(sub, parent=parent)
+    if window2 is not None:
+        target = _chunk(genome, *window2)
+    else:
+        target = Parent(id="chr", sequence=Sequence(genome, Alphabet.NT_STRICT, id="chr", type=SequenceType.CHROMOSOME))
+    got = AbstractInterval.liftover_location_to_seq_chunk_parent(child, target)
+    if got is EmptyLocation():
+        return "ok E"
+    return "ok " + show_loc(got) + " ; ~" + str(got.extract_sequence())
